@@ -67,6 +67,9 @@ func genXZWCase(r *sim.Rng, tier string, idx int, tail bool) *WCase {
 			pl = mixedChunkPayload(r, cfg.DictCap)
 		}
 	}
+	if rp, dc, ok := rarePayload(r, tier); ok && (cfg.BlockSize == 0 || cfg.BlockSize >= 1<<20) {
+		pl, cfg.DictCap, cfg.Matcher = rp, dc, 0
+	}
 	n := pl.Len()
 	marks := []int{65536}
 	if cfg.BlockSize > 0 {
